@@ -126,6 +126,8 @@ package hook
 // Ghost trace of hook executions for the callers (C04, C14, C18): number of runs, the contexts of
 // the latest run and its results; the rate-limit token (hook last waited for, outcome of the wait).
 //@ ghost nRun int
+// the hook of the latest execution
+//@ ghost lastRunHook *Hook
 //@ ghost ranContexts []bctx.BindingContext
 //@ ghost lastWaitHook *Hook
 //@ ghost lastWaitErr error
@@ -222,8 +224,9 @@ package hook
 //@   requires [rate-limit-token] lastWaitHook == h && lastWaitErr == nil && h != nil
 //@   requires h.HookController != nil && h.Config != nil && (h.Config.Version == "v0" || h.Config.Version == "v1") && nProcess >= 0 && !fsExists[""]
 //@   modifies bctx.lastConvIn, bctx.lastConvVersion, bctx.lastConvOut, controller.lastRefreshIn, controller.lastRefreshOut, controller.snapCount, controller.snapOf
-//@   modifies nRun, ranContexts, lastWaitHook, lastHookResult, lastHookErr, fsExists, ctxFileContent, nProcess, lastExitErr, nOutputsRead, lastEnviron
+//@   modifies nRun, lastRunHook, ranContexts, lastWaitHook, lastHookResult, lastHookErr, fsExists, ctxFileContent, nProcess, lastExitErr, nOutputsRead, lastEnviron
 //@   ghostset nRun := nRun + 1
+//@   ghostset lastRunHook := h
 //@   ghostset ranContexts := context
 //@   ghostset lastWaitHook := nil
 //@   ghostset lastHookResult := result0
